@@ -52,3 +52,9 @@ package topology
 //@   ensures [C19.range] unit(result)
 //@   ensures [C19.nil] (a == nil || b == nil) ==> result == 0.0
 //@   ensures [C19.self] a != nil && b != nil && sameShape(a, b) ==> result == 1.0
+
+// ---- C17: truncation returns a prefix and its scan makes progress on every iteration
+//@ func truncateToValidUTF8
+//@   ensures [C17.utf8] hasPrefix(s, result)
+//@   loop 1 invariant [C17.utf8] 0 <= i && i <= len(s) && validLen == i
+//@   loop 1 decreases [C17.utf8] len(s) - i
